@@ -27,7 +27,9 @@ package main
 //     own), or a landmark name is neither "existing" nor "missing" by the statement:
 //     aborting / reporting / ignoring are all accepted for those; if the list is non-empty
 //     but nothing could be placed either landmark kind is accepted;
-//   - slack: the position of a NO-prefetch landmark is not fixed by the statement.
+//   - slack: the position of a NO-prefetch landmark is not fixed by the statement;
+//   - slack: a listed hardlink whose chain ends at a name without entry (dangling) is neither
+//     "existing" nor "missing": see expect(). It must still never be lost or duplicated.
 
 import (
 	"archive/tar"
